@@ -30,12 +30,28 @@ def _or(a, b):
     if isinstance(a, SymBool) or isinstance(b, SymBool): return mkbool(z3.Or(core.zb(a), core.zb(b)))
     return bool(a) or bool(b)
 
-class Arr(list):
-    """stand-in for the ndarray returned by .values"""
+class Arr:
+    """stand-in for a 1-d ndarray (deliberately not a list subclass: the code under test treats lists and arrays differently)"""
+    def __init__(self, items = ()): self._a = list(items._a if isinstance(items, Arr) else items)
+    def __len__(self): return len(self._a)
+    def __iter__(self): return iter(self._a)
+    def __getitem__(self, i):
+        if isinstance(i, slice): return Arr(self._a[i])
+        if isinstance(i, (Mask, Arr, list)): return Arr([v for v, k in zip(self._a, list(i)) if k])
+        return self._a[i]
     @property
-    def shape(self): return (len(self),)
+    def shape(self): return (len(self._a),)
     @property
     def T(self): return self
+    @property
+    def values(self): return self
+    def copy(self): return Arr(self._a)
+    def __invert__(self): return Arr([core.sym_not(b) for b in self._a])
+    def __eq__(self, o):
+        if isinstance(o, (Arr, list)): return Arr([a == b for a, b in zip(self._a, list(o))])
+        return Arr([a == o for a in self._a])
+    __hash__ = None
+    def __repr__(self): return 'minipd.Arr(%r)' % (self._a,)
 
 class Index:
     def __init__(self, labels = (), name = None):
@@ -130,11 +146,14 @@ class Series:
         if isinstance(item, slice):
             if item.step is not None: raise Unsupported('minipd: stepped slice')
             lo, hi = item.start, item.stop
+            if all(b is None or type(b) is int for b in (lo, hi)) and all(type(t) is int for t in self._i._l):
+                return Series(self._v[lo:hi], self._i._l[lo:hi], self.name)          # integer bounds on an integer (range) index: positional slice
             for b in (lo, hi):
                 if b is not None and (isinstance(b, (core.SymTime, _rdt.time)) or not isinstance(b, (_rdt.datetime, core.SymDatetime))):
                     raise TypeError('minipd: label slice bounds must be datetimes')       # pandas raises for time-of-day bounds on a DatetimeIndex slice
             keep = Mask([(True if lo is None else t >= lo) and (True if hi is None else t <= hi) for t in self._i._l])   # closed label slice on a sorted index
             return self[keep]
+        if isinstance(item, Arr): item = Mask(list(item))
         if isinstance(item, (Mask, list)) and len(item) == len(self._v) and all(isinstance(k, (bool, SymBool)) for k in item):
             pairs = [(t, v) for t, v, k in zip(self._i._l, self._v, item) if k]
             return Series([v for t, v in pairs], [t for t, v in pairs], self.name)
@@ -295,12 +314,13 @@ class NPX:
         raise Unsupported('minipd: np.%s is not modelled' % k)
     def isnan(self, x):
         if isinstance(x, Series): return Series([_isnan(v) for v in x._v], Index(x._i._l))
-        if isinstance(x, Arr): return Mask([_isnan(v) for v in x])
+        if isinstance(x, Arr): return Arr([_isnan(v) for v in x])
         if isinstance(x, SymFloat): return mkbool(x.kind == core.NAN)
         if core.is_sym(x): return False
         return self._np.isnan(x)
     def isinf(self, x):
         if isinstance(x, Series): return Series([_isinf(v) for v in x._v], Index(x._i._l))
+        if isinstance(x, Arr): return Arr([_isinf(v) for v in x])
         if isinstance(x, SymFloat): return mkbool(z3.Or(x.kind == core.PINF, x.kind == core.NINF))
         if core.is_sym(x): return False
         return self._np.isinf(x)
@@ -384,5 +404,9 @@ def gate():
         try:
             r[t:None]; return False, dict(mismatch = 'pandas accepted a time-of-day label slice')
         except Exception: pass
-    n += 5
+    mi = Series([1.0, NAN, 3.0]); ri = rpd.Series([1.0, NAN, 3.0])
+    for k in range(0, 4):
+        a = mi[k:]; b = ri[k:]
+        if list(a._i._l) != list(b.index) or len(a) != len(b): return False, dict(mismatch = 'positional slice on a range index')
+    n += 9
     return True, dict(comparisons = n)
